@@ -322,8 +322,9 @@ func c14serial(rep *vh.Report, seed uint64, idx int) {
 				rep.Count("serial_failures_with_writer_inside_write", 1)
 			}
 		}
-		// some failed open attempts before the next success
-		if r.Chance(1, 2) {
+		// some failed open attempts before the next success (never in the scenarios numbered with a multiple of four: there the
+		// first attempt that fails is the one after the device has gone away for good)
+		if r.Chance(1, 2) && idx%4 != 0 {
 			sf.mu.Lock()
 			sf.failN = 1 + r.Intn(4)
 			sf.slowFail = 0
@@ -341,6 +342,26 @@ func c14serial(rep *vh.Report, seed uint64, idx int) {
 		waitFor(func() bool { return life.count(false) > f }, life.progress, 2*time.Second)
 	}
 	waitFor(func() bool { return life.count(true) > nFail }, life.progress, 2*time.Second)
+	if idx%2 == 0 && life.count(true) > nFail {
+		// the device goes away for good: the last channel fails, the attempts to open the port again fail one after the other,
+		// and the node is closed while the device is still away
+		sf.mu.Lock()
+		sf.failN, sf.slowFail = 1<<30, 0
+		opens0 := sf.opens
+		sf.mu.Unlock()
+		_, ports := sf.snapshot()
+		last := ports[len(ports)-1]
+		closes0 := life.count(false)
+		for k := 0; k < 50; k++ {
+			last.FeedError(errors.New("device unplugged"))
+		}
+		waitFor(func() bool { return life.count(false) > closes0 }, life.progress, 2*time.Second)
+		// (no look at the opener's own counters from here on: under the race detector - this scenario is re-run by C15 - taking
+		// its mutex would order the endpoint's goroutine before this one and hide what Close may race with)
+		_ = opens0
+		time.Sleep(200*time.Millisecond + time.Duration(idx%3)*60*time.Millisecond)
+		rep.Count("serial_nodes_closed_while_the_device_is_away_after_failed_reopens", 1)
+	}
 	evts := life.snapshot()
 	opensBeforeClose := life.count(true)
 	if !safeClose(rep, node) {
